@@ -588,3 +588,5 @@ kani("models::quantizer_search_i8_mid", ["C03", "C10", "C20"], kind="bounded", b
 kani("models::entropy_is_finite_u8_p8", ["C18"], kind="bounded", bound="uniform models with 2..3 symbols, u8, P = 8 = Probability::BITS; CBMC's log2 model", timeout=1200,
      fns=[M + "model.rs::IterableEntropyModel::entropy_base2"],
      text="sanity contract only: entropy_base2 is finite and within [0, P] (the exact value is not decided: transcendental)")
+kani("range::u8_u32_p8::enc_potential", ["C12"], tier="thorough", timeout=7200, fns=[QE],
+     text="range potential inequality and <= 1 word per symbol at State = 4 Words (measured: 31 min)")
